@@ -56,6 +56,7 @@ FreshState ==
    slog   |-> <<>>,   \* allocations currently on the stack, oldest first: [id, n, sz, al, b, off]
    expect |-> <<>>,   \* after an unwind: what a repetition of the requests must return
    eidx   |-> 1,
+   hdef   |-> FALSE,  \* the script has reset the error handlers to the library's defaults (set_handler(nullptr))
    taint  |-> -1,     \* id of the last stack allocation before a failed request that changed the stack's state (-1: none)
    snap   |-> {},     \* upstream blocks that were outstanding when the previous API call returned
    over   |-> FALSE]  \* execution ended abnormally
@@ -118,8 +119,8 @@ OnNew(e) ==
       famOk == e.r \in OomFamily \cup SizeFamily \/ (e.r = "throw:injected" /\ e.upf > 0)
   IN Result([st EXCEPT !.objs = Append(@, o), !.pend = <<>>, !.inj = 0],
        Chk(ok \/ famOk, "C03", "ThrowIsLibraryFamily", <<"new", e.r>>)
-       \cup Chk(~(e.r \in OomFamily) \/ PendK("oom") # {}, "C03", "HandlerCalledFirst", <<"new", e.r>>)
-       \cup Chk(~(e.r \in SizeFamily) \/ PendK("badsize") # {}, "C03", "HandlerCalledFirst", <<"new", e.r>>)
+       \cup Chk(~(e.r \in OomFamily) \/ (st.hdef \/ PendK("oom") # {}), "C03", "HandlerCalledFirst", <<"new", e.r>>)
+       \cup Chk(~(e.r \in SizeFamily) \/ (st.hdef \/ PendK("badsize") # {}), "C03", "HandlerCalledFirst", <<"new", e.r>>)
        \cup Chk(ok \/ mine = {}, "C05", "FailedConstructionReturnsBlocks", <<mine>>)
        \cup Chk(~ok \/ e.fam # "iter" \/ SumSeq(e.caps) <= o.bsz, "C07", "RegionsCoverNoMoreThanBlock", <<e.caps, o.bsz>>)
        \cup NoStrayReports("new") \cup NoLeakReport("new"))
@@ -183,8 +184,8 @@ OnAlloc(e) ==
        \cup Chk(~e.t \/ e.ups = 0, "C03", "TryNeverGrows", <<o.fam, e.ups>>)
        \cup Chk(~thr \/ e.r \in OomFamily \cup SizeFamily \/ (e.r = "throw:injected" /\ st.inj > 0),
                 "C03", "ThrowIsLibraryFamily", <<o.fam, e.r>>)
-       \cup Chk(~(e.r \in OomFamily) \/ PendK("oom") # {}, "C03", "HandlerCalledFirst", <<o.fam, e.r>>)
-       \cup Chk(~(e.r \in SizeFamily) \/ PendK("badsize") # {}, "C03", "HandlerCalledFirst", <<o.fam, e.r>>)
+       \cup Chk(~(e.r \in OomFamily) \/ (st.hdef \/ PendK("oom") # {}), "C03", "HandlerCalledFirst", <<o.fam, e.r>>)
+       \cup Chk(~(e.r \in SizeFamily) \/ (st.hdef \/ PendK("badsize") # {}), "C03", "HandlerCalledFirst", <<o.fam, e.r>>)
        \* "able to serve later valid requests": an allocator over a growing source reports exhaustion only
        \* when its upstream refused in this very call, one over a fixed source only while its block is out
        \cup Chk(~(e.r \in OomFamily /\ o.fam \in {"pool", "coll", "stack"}) \/ Justified(o, mine),
@@ -412,7 +413,7 @@ OnAblk(e) ==
       cach2 == IF ok /\ fromCache THEN Front(o.cach) ELSE o.cach
   IN Result([st EXCEPT !.objs[e.o + 1].used = used2, !.objs[e.o + 1].cach = cach2, !.pend = <<>>, !.inj = 0],
        Chk(ok \/ e.r \in OomFamily \/ (e.r = "throw:injected" /\ st.inj > 0), "C03", "ThrowIsLibraryFamily", <<"arena", e.r>>)
-       \cup Chk(~(e.r \in OomFamily) \/ PendK("oom") # {}, "C03", "HandlerCalledFirst", <<"arena", e.r>>)
+       \cup Chk(~(e.r \in OomFamily) \/ (st.hdef \/ PendK("oom") # {}), "C03", "HandlerCalledFirst", <<"arena", e.r>>)
        \cup Chk(~(e.r \in OomFamily) \/ Justified(o, LiveBlocksOf(st, o.src)), "C03", "FailureIsJustified",
                 <<"arena", o.srck, e.r, LiveBlocksOf(st, o.src)>>)
        \cup Chk(~(ok /\ fromCache) \/ e.ups = 0, "C05", "CacheReusedBeforeUpstream", <<o.cach, e.ups>>)
@@ -480,6 +481,9 @@ Apply(e) ==
     [] e.e = "ux" -> OnUx(e)
     [] e.e = "uf" -> OnUf(e)
     [] e.e = "h" -> OnH(e)
+    \* set_handler(nullptr) selects the default handler: the getters never return null, failures are still thrown
+    [] e.e = "hmode" -> Result([st EXCEPT !.hdef = e.def],
+                               Chk(e.nonnull, "C03", "HandlerNeverNull", <<e.def>>))
     [] e.e = "new" -> OnNew(e)
     [] e.e = "alloc" -> OnAlloc(e)
     [] e.e = "free" -> OnFree(e)
